@@ -313,6 +313,21 @@ func runC10(c c10Case) (*vh.Violation, vh.Outcome) {
 			}
 			reobs = true
 			t := txs[o.A%len(txs)]
+			if o.B > 0 {
+				// the chain moves while the request is being handled: right after the receipt has been answered the head
+				// grows (and, for odd B, the transaction's block is orphaned)
+				grow, orphan := uint64(o.B), o.B%2 == 1
+				sim.mu.Lock()
+				sim.afterReceipt[t.Hash] = func() {
+					sim.head += grow
+					if orphan {
+						t.Gone = true
+					}
+				}
+				sim.mu.Unlock()
+				out.Labels = append(out.Labels, "chain-moves-during-reobservation")
+				reorgOrJump = true
+			}
 			reqC <- &gossipv1.ObservationRequest{ChainId: uint32(chain), TxHash: t.Hash.Bytes()}
 			// the re-observation goroutine handles requests one after the other: once a later request for a transaction
 			// that does not exist has reached its receipt lookup, the request above has been handled completely
@@ -468,6 +483,14 @@ func runC10(c c10Case) (*vh.Violation, vh.Outcome) {
 			return vh.V("C10/failed-transaction-forwarded", "op %d: message of tx %s forwarded although its receipt has status %d", a.opIdx, m.TxHash.Hex(), lastRcpt.status), out
 		}
 		if isReobsOp(a.opIdx) {
+			// the depth is judged against a head the node reported *before* it answered the receipt: a head read afterwards
+			// says nothing about the block the receipt named
+			maxHead = 0
+			for k := 0; k < lastRcpt.seq && k < len(servedLog); k++ {
+				if sv := servedLog[k]; sv.method == "eth_getBlockByNumber" && !sv.err && sv.arg == headTag && sv.head > maxHead {
+					maxHead = sv.head
+				}
+			}
 			if lastRcpt.head+conf > maxHead {
 				return vh.V("C10/reobserved-too-shallow", "op %d: re-observed message of tx %s forwarded at depth %d, required %d (receipt block %d, highest head served %d)", a.opIdx, m.TxHash.Hex(), int64(maxHead)-int64(lastRcpt.head), conf, lastRcpt.head, maxHead), out
 			}
@@ -571,7 +594,7 @@ func genC10(t *rapid.T) c10Case {
 		case "fault":
 			return c10Op{K: "fault", A: rapid.IntRange(0, 1).Draw(t, "m"), B: rapid.SampledFrom([]int{0, 0, 0, 0, 0, 0, 0, 0, 1, 1, 1, 1, 1, 1, 1, 1, 2, 3}).Draw(t, "n")}
 		}
-		return c10Op{K: "reobserve", A: rapid.IntRange(0, 9).Draw(t, "tx")}
+		return c10Op{K: "reobserve", A: rapid.IntRange(0, 9).Draw(t, "tx"), B: rapid.SampledFrom([]int{0, 0, 0, 1, 2, 15, 16}).Draw(t, "moves")}
 	})
 	c.Ops = rapid.SliceOfN(op, 1, 25).Draw(t, "ops")
 	return c
